@@ -79,7 +79,8 @@ def row_tables(s, max_records):
     """all row-record tables with <= max_records records over the value patterns"""
     cells = spec_cells(s)
     rk = s["record_keys"]
-    keyvals = [("r1", "s1"), ("r2", "s1"), ("r1", "s2")]
+    # distinct record keys; with two key columns the first one repeats
+    keyvals = [("r1", "s1"), ("r2", "s1"), ("r1", "s2")] if len(rk) > 1 else [("r1",), ("r2",), ("r3",)]
     cols = rk + cells
     types = {c: "str" for c in rk}
     types.update({c: "int" for c in cells})
